@@ -74,6 +74,10 @@ def gen_plan(rng, tier, index):
         elif rng.chance(0.15):
             fops.append({'op': 'edit_resave', 't': rng.randrange(1000), 'p': rng.randrange(1000), 'seed': rng.randrange(10 ** 5),
                          'ft': rng.pick(['hdf5', 'hdf5', 'pkl'])})
+        elif rng.chance(0.04):
+            # a long session: many saves and loads under a tight budget of file descriptors (every save and load gives back
+            # what it opened)
+            fops.append({'op': 'fd_storm', 't': rng.randrange(1000), 'n': rng.pick([60, 90, 130]), 'ft': rng.pick(['pkl', 'pkl', 'hdf5'])})
         elif rng.chance(0.1):
             # two saves in flight at once (two worker threads of one analysis, each storing its own result under its own name)
             fops.append({'op': 'concurrent_saves', 't': rng.randrange(1000), 'seed': rng.randrange(10 ** 6)})
@@ -508,6 +512,8 @@ def execute(plan, ctx):
                 _do_load_resave(ctx, pool, fs, files, kind, o)
             elif o['op'] == 'concurrent_saves':
                 _do_concurrent_saves(ctx, pool, fs, files, objs, kind, o)
+            elif o['op'] == 'fd_storm':
+                _do_fd_storm(ctx, pool, fs, files, objs, kind, o)
             elif o['op'] == 'gc':
                 import gc
                 ctx.tick('gc')
@@ -641,6 +647,58 @@ def _do_load(ctx, pool, fs, files, kind, o):
             _load_and_compare(ctx, pool, fs, e, kind, e['path'], 'path')
     if e.get('crash'):
         _load_and_compare(ctx, pool, fs, e, kind, e['crash'], 'crash-snapshot')
+
+
+def _do_fd_storm(ctx, pool, fs, files, objs, kind, o):
+    """resource fault: the process may hold only ~40 more file descriptors than it does now (RLIMIT_NOFILE lowered for the
+    duration); n saves by path, each followed by a load, must all succeed -- a save or load that keeps a descriptor open
+    runs into EMFILE after a few dozen files"""
+    import errno
+    import gc
+    import resource
+    slot = objs[o['t'] % len(objs)]
+    ft = o['ft']
+    for dname in ('rdm_descriptors', 'pattern_descriptors', 'obs_descriptors', 'channel_descriptors', 'time_descriptors'):
+        for v in getattr(slot.obj, dname, {}).values():
+            if v is None or any(x is None for x in v):
+                ft = 'pkl'          # (None entries: not an HDF5 value type, see _do_save)
+    twin = rec_any(slot.obj)
+    load = _loader(kind)
+    gc.collect()                     # (h5py File objects of earlier steps are released by the collector, as in a live session)
+    soft, hard = resource.getrlimit(resource.RLIMIT_NOFILE)
+    n_open = len(os.listdir('/proc/self/fd'))
+    budget = n_open + 40
+    if hard != resource.RLIM_INFINITY:
+        budget = min(budget, hard)
+    fs.tick('fd_budget', extra=40, n=o['n'], ft=ft)
+    ctx.fault('fd_budget')
+    path = None
+    try:
+        resource.setrlimit(resource.RLIMIT_NOFILE, (budget, hard))
+        for i in range(o['n']):
+            path = fs.new_path('pkl' if ft == 'pkl' else 'h5')
+            try:
+                slot.obj.save(path, file_type=ft)
+                loaded = load(path, file_type=ft)
+            except OSError as ex:
+                if ex.errno in (errno.EMFILE, errno.ENFILE) or 'too many open files' in str(ex).lower():
+                    ctx.violation('fs_model.fd_leak', f'save:{kind}:{ft}:descriptor-leak',
+                                  f'after {i} save/load cycles ({ft}, by path) under a budget of 40 spare file descriptors the next '
+                                  f'one failed with {type(ex).__name__}: {str(ex)[:120]} -- saves or loads keep descriptors open')
+                    return
+                raise
+            if ft == 'hdf5' and i % 16 == 15:
+                del loaded
+                gc.collect()         # (the collector of a live session; h5py objects are released by it)
+    finally:
+        resource.setrlimit(resource.RLIMIT_NOFILE, (soft, hard))
+        gc.collect()
+    d = diff_rec(twin, rec_any(loaded))
+    if d:
+        ctx.violation('fs_model.roundtrip', f'load:{kind}:{ft}:after-many-saves', f'the object read back after {o["n"]} save/load cycles differs: {d[0][1]}')
+        return
+    ctx.probe('fd_storms')
+    ctx.behaviour('save', kind, 'fd_storm', ft)
 
 
 def _do_concurrent_saves(ctx, pool, fs, files, objs, kind, o):
